@@ -192,6 +192,15 @@ def oracle_two(a, b):
                 fb = P.frombase(na, nb)
                 if na + fb != nb:
                     bad.append(("frombase_append", repr((na, nb, fb))))
+        # "compare whole components, never raw string prefixes", for ANY two normalised paths (absolute
+        # or relative in any combination): whatever frombase returns consists of exactly the components
+        # of path2 that follow those of path1 (it may refuse with ValueError instead)
+        try:
+            fb = P.frombase(na, nb)
+        except ValueError:
+            fb = None
+        if fb is not None and (not is_prefix(ca, cb) or [c for c in fb.split("/") if c] != cb[len(ca):]):
+            bad.append(("frombase_whole_components", repr((na, nb, fb))))
         rel = P.relativefrom(na, nb)
         if ref_resolve(ca + rel.split("/")) != cb:
             bad.append(("relativefrom_resolves", repr((na, nb, rel))))
